@@ -51,6 +51,59 @@ def entry(name, K, bloom, ops_end, rng):
     os.remove(os.path.join(d, 'gen.out'))
     print(name, 'files:', sorted(os.listdir(os.path.join(d, 'dir'))))
 
+def entry_wide(name, K, bloom, ops_end, rng, hb):
+    """Blobs with 70..200 records each: index files with several leaves under a root node (and, for long keys, several
+    inner nodes), most keys with two or three versions. Generated with a harness built against the pinned tree
+    (commit 8fcb7aa + the cfg-gated hook commits only) in a scratch worktree."""
+    d = os.path.join(V, 'corpus', name)
+    shutil.rmtree(d, ignore_errors=True)
+    os.makedirs(d)
+    nkeys = rng.choice([60, 90])
+    keys = sorted(set([(3 * i + 1).to_bytes(K, 'big').hex() for i in range(nkeys - 5)] + [key_hex(K, i) for i in range(5)]))
+    cfg = 'cfg K=%d dup=1 group=2 bloom=%s init=eager runtime=mt' % (K, bloom_cfg_hex() if bloom else 'none')
+    L = [cfg + ' savedir=%s' % os.path.join(d, 'dir'), 'open']
+    seed = 0
+    for b in range(2):
+        ops = []
+        for k in keys:
+            for _ in range(rng.choice([1, 2, 2, 3])):
+                seed += 1
+                if rng.random() < 0.05:
+                    ops.append('D %s %d - 0' % (k, rng.choice([5, 7, 9])))
+                else:
+                    ln = rng.choice([5, 9, 40])     # long enough to identify the payload (the harness names a payload by length and checksum)
+                    ops.append('W %s %d %s %d %d' % (k, rng.choice([5, 7, 9]), rng.choice(['-', 'm1']), ln, seed))
+        rng.shuffle(ops)
+        L += ops
+        if b < 1:
+            L.append('close_active')
+    L.append(ops_end)
+    open(os.path.join(d, 'gen.txt'), 'w').write('\n'.join(L) + '\n')
+    subprocess.run([hb, os.path.join(d, 'gen.txt'), os.path.join(d, 'gen.out')], check=True)
+    Q = [cfg + ' usedir=%s' % os.path.join(d, 'dir')]
+    for l in L[1:]:
+        Q.append('model: ' + l)
+    Q.append('open')
+    for t in (l.split() for l in L if l.startswith('W ')):
+        if int(t[4]) > 0:
+            Q.append('know %s %s' % (t[4], t[5]))
+    for k in keys + [(3 * nkeys + 2).to_bytes(K, 'big').hex()]:
+        Q += ['R %s' % k, 'C %s' % k, 'RD %s' % k]
+    Q += ['counts', 'ls']
+    open(os.path.join(d, 'query.txt'), 'w').write('\n'.join(Q) + '\n')
+    subprocess.run([hb, os.path.join(d, 'query.txt'), os.path.join(d, 'expected.txt')], check=True)
+    os.remove(os.path.join(d, 'gen.out'))
+    print(name, 'files:', sorted(os.listdir(os.path.join(d, 'dir'))))
+
+
+if __name__ == '__main__' and len(sys.argv) > 2 and sys.argv[1] == 'wide':
+    # usage: gen_corpus.py wide <harness binary built against the pinned tree>
+    rng = random.Random(9)
+    for K in (4, 32):
+        for bloom in (False, True):
+            entry_wide('wide_k%d_%s_%s' % (K, 'bloom' if bloom else 'nobloom', 'close' if bloom else 'drop'), K, bloom, 'close' if bloom else 'drop', rng, sys.argv[2])
+    sys.exit(0)
+
 if __name__ == '__main__':
     rng = random.Random(8)
     i = 0
